@@ -75,7 +75,37 @@ func gen(t *rapid.T) Case {
 		n := rapid.SampledFrom([]int{0, 1, 2, 4, 10}).Draw(t, "nops")
 		for i := 0; i < n; i++ {
 			o := dss[rapid.IntRange(0, len(dss)-1).Draw(t, "obj")]
-			switch rapid.SampledFrom([]string{"attr", "attr", "attr", "delattr", "write", "create", "mkgroup", "fit", "fit", "resize", "hard", "burst", "gattr"}).Draw(t, "k") {
+			kind := rapid.SampledFrom([]string{"attr", "attr", "attr", "delattr", "write", "create", "mkgroup", "fit", "fit", "resize", "hard", "burst", "gattr", "focus", "focus"}).Draw(t, "k")
+			focusOn := func(o info) {
+				// several operations in a row on ONE object, through its handle and around it (links): the routes by which an
+				// object header gets rewritten have to stay in step
+				for j, m := 0, rapid.IntRange(3, 6).Draw(t, "focusLen"); j < m; j++ {
+					switch fk := rapid.SampledFrom([]string{"attr", "delattr", "write", "resize", "hard", "attr"}).Draw(t, "fk"); fk {
+					case "attr":
+						ops = append(ops, hist.Op{K: "attr", Path: o.path, Name: rapid.SampledFrom(names).Draw(t, "aname"), A: &hist.AttrVal{Kind: rapid.SampledFrom([]string{"i32", "str", "f64"}).Draw(t, "akind"), N: 12, Seed: rapid.IntRange(0, 999).Draw(t, "aseed")}})
+					case "delattr":
+						ops = append(ops, hist.Op{K: "delattr", Path: o.path, Name: rapid.SampledFrom(names).Draw(t, "aname")})
+					case "write":
+						ops = append(ops, hist.Op{K: "write", Path: o.path, Seed: rapid.IntRange(0, 999).Draw(t, "wseed"), Mode: 1})
+					case "resize":
+						if o.d.MaxDims != nil {
+							var dims []uint64
+							for range o.d.Dims {
+								dims = append(dims, uint64(rapid.IntRange(1, 12).Draw(t, "newExtent")))
+							}
+							ops = append(ops, hist.Op{K: "resize", Path: o.path, Dims: dims}, hist.Op{K: "write", Path: o.path, Seed: rapid.IntRange(0, 999).Draw(t, "wseed"), Mode: 1})
+						}
+					case "hard":
+						created++
+						ops = append(ops, hist.Op{K: "hard", Path: fmt.Sprintf("/hl%d", created), Target: o.path})
+					}
+				}
+			}
+			if kind == "focus" {
+				focusOn(o)
+				continue
+			}
+			switch kind {
 			case "resize":
 				if o.d.MaxDims != nil {
 					var dims []uint64
@@ -116,6 +146,9 @@ func gen(t *rapid.T) Case {
 				nd := &hist.DSpec{Type: rapid.SampledFrom([]string{"i32", "f64", "u8"}).Draw(t, "ntype"), Dims: []uint64{uint64(rapid.IntRange(1, 6).Draw(t, "nextent"))}}
 				if rapid.Bool().Draw(t, "nchunked") {
 					nd.Chunk = []uint64{uint64(rapid.IntRange(1, int(nd.Dims[0])).Draw(t, "nchunk"))}
+					if rapid.Bool().Draw(t, "nresizable") {
+						nd.MaxDims = []uint64{hdf5.Unlimited} // handles of datasets created in the session differ from reopened ones
+					}
 				}
 				np := fmt.Sprintf("/new%d", created)
 				ops = append(ops, hist.Op{K: "dataset", Path: np, D: nd})
@@ -123,12 +156,21 @@ func gen(t *rapid.T) Case {
 					ops = append(ops, hist.Op{K: "write", Path: np, Seed: rapid.IntRange(0, 999).Draw(t, "wseed"), Mode: 1})
 				}
 				dss = append(dss, info{np, nd, nd.Chunk != nil}) // later sessions work on it like on any other dataset
+				if rapid.Bool().Draw(t, "focusNew") {
+					focusOn(dss[len(dss)-1]) // the handle of a dataset created in this session is not the handle OpenDataset gives
+				}
 			case "mkgroup":
 				created++
 				ops = append(ops, hist.Op{K: "group", Path: fmt.Sprintf("/newg%d", created)})
 			}
 		}
 		c.Sessions = append(c.Sessions, ops)
+	}
+	if len(c.Sessions) > 1 && rapid.Bool().Draw(t, "firstInCreateSession") {
+		// the first batch of modifications happens in the session that created the file (CreateForWrite), whose handles
+		// and bookkeeping differ from those of an OpenForWrite session
+		c.Base = append(c.Base, c.Sessions[0]...)
+		c.Sessions = c.Sessions[1:]
 	}
 	return c
 }
@@ -176,7 +218,7 @@ func run(c Case) vt.Verdict {
 	}
 	check := func(stage string) *vt.Verdict {
 		f := obs.Read(file, obs.Options{SelSeeds: []uint64{11, 22, 33, 44}})
-		for _, p := range hist.Compare(ex.M, f, hist.Opts{}) {
+		for _, p := range hist.Compare(ex.M, f, hist.Opts{RefCount: true}) {
 			if p.Kind == "attr-value-unsigned" {
 				continue
 			}
